@@ -14,7 +14,7 @@ from dataclasses import dataclass, field
 from fractions import Fraction as F
 
 from . import nf
-from .model import AnalysisError, ClassInfo, FunctionInfo, Program
+from .model import AnalysisError, ClassInfo, FunctionInfo, Program, mangle
 from .values import (
     J, Arr2, BoolV, BoundExt, Buf, ClassV, DictV, EnumV, ExtObj, ExtV, FuncV, GenV, Inst, LambdaV, PartialV,
     NoneV, Num, RangeV, SetV, SliceV, StarV, StrV, SuperV, TupV, Val, Vec, const_num, sym_num,
@@ -267,8 +267,9 @@ class Interp:
                 closure = it._closure_env_for(fi.parent)
             if it._effective_decorators(fi) and fi.qualname not in it.opaque:
                 # the entry point is what its decorators make of it
-                kw = {k: v for k, v in bound.items() if k != fi.vararg}
-                return it.call(FuncV(fi, closure, sv, fi.cls), [], kw, fi.node, None)
+                # called the way the documentation calls it: positional parameters by position, keyword-only ones by name
+                pos_names = [p for p in fi.params if not (p in ("self", "cls") and fi.cls is not None and p == fi.params[0])]
+                return it.call(FuncV(fi, closure, sv, fi.cls), [bound[p] for p in pos_names if p in bound], {k: bound[k] for k in fi.kwonly if k in bound}, fi.node, None)
             return it._exec_function(fi, bound, sv, closure, fi.cls)
 
         return self.explore(run)
@@ -516,9 +517,10 @@ class Interp:
             for t in s.targets:
                 if isinstance(t, ast.Attribute):
                     base = self.eval(t.value, env)
-                    self.log("del_attr", s, base=base, attr=t.attr)
+                    aname = self._mangled(t.attr, env)
+                    self.log("del_attr", s, base=base, attr=aname)
                     if isinstance(base, Inst):
-                        base.attrs.pop(t.attr, None)
+                        base.attrs.pop(aname, None)
                 elif isinstance(t, ast.Name):
                     env.vars.pop(t.id, None)
         elif isinstance(s, (ast.Pass, ast.Import, ast.ImportFrom, ast.Global, ast.Nonlocal, ast.ClassDef, ast.Assert)):
@@ -658,11 +660,7 @@ class Interp:
                 self._assign(e, x, env, stmt)
         elif isinstance(t, ast.Attribute):
             base = self.eval(t.value, env)
-            self.log("store_attr", stmt, base=base, attr=t.attr, value=v)
-            if isinstance(base, (Inst, ExtObj)):
-                base.attrs[t.attr] = v
-            else:
-                self.attr_heap[(nf.key(self.to_nf(base)), t.attr)] = v
+            self.store_attribute(base, self._mangled(t.attr, env), v, stmt)
         elif isinstance(t, ast.Subscript):
             base = self.eval(t.value, env)
             self._store_sub(base, t, v, env, stmt)
@@ -670,6 +668,26 @@ class Interp:
             self._assign(t.value, v, env, stmt)
         else:
             raise AnalysisError(f"unsupported assignment target {type(t).__name__}")
+
+    def store_attribute(self, base, attr, v, stmt, raw=False):
+        """obj.attr = v.  A class that defines __setattr__ decides what is stored: its method is interpreted (the plain
+        store happens when it reaches object.__setattr__ / super().__setattr__)."""
+        if isinstance(base, Inst) and not raw:
+            hook = base.cls.lookup("__setattr__")
+            active = getattr(self, "_setattr_active", set())
+            if hook is not None and id(base) not in active:
+                self._setattr_active = active | {id(base)}
+                try:
+                    owner = next(c for c in base.cls.mro() if "__setattr__" in c.methods)
+                    self.call(FuncV(hook, None, base, owner, raw=True), [StrV(attr), v], {}, stmt, None)
+                finally:
+                    self._setattr_active = active
+                return
+        self.log("store_attr", stmt, base=base, attr=attr, value=v)
+        if isinstance(base, (Inst, ExtObj)):
+            base.attrs[attr] = v
+        else:
+            self.attr_heap[(nf.key(self.to_nf(base)), attr)] = v
 
     def _store_sub(self, base, t, v, env, stmt):
         idx = self._eval_index(t.slice, env)
@@ -922,7 +940,29 @@ class Interp:
             return Num(acc)
         return Num(nf.fn("matmul", self.to_nf(a), self.to_nf(b)))
 
+    def _has_internal_call(self, expr, env):
+        """does evaluating expr call a function of the package (whose body may store something)?"""
+        for c in ast.walk(expr):
+            if isinstance(c, ast.Call):
+                try:
+                    f = self.eval(c.func, env)
+                except Exception:
+                    continue
+                if isinstance(f, (FuncV, PartialV, LambdaV)):
+                    return True
+        return False
+
     def _e_BoolOp(self, n, env):
+        if any(self._has_internal_call(v, env) for v in n.values[1:]):
+            # `a or f(x)` / `a and f(x)`: whether f runs depends on a - short-circuit evaluation as a trace partition
+            is_or = isinstance(n.op, ast.Or)
+            cur = self.eval(n.values[0], env)
+            for nxt in n.values[1:]:
+                t = cur if isinstance(cur, BoolV) else self._truth(cur)
+                if self.decide(t, n) == is_or:
+                    return cur  # `or`: first truthy operand; `and`: first falsy operand
+                cur = self.eval(nxt, env)
+            return cur
         vals = [self.eval(v, env) for v in n.values]
         out = vals[0] if isinstance(vals[0], BoolV) else self._truth(vals[0])
         for v in vals[1:]:
@@ -1109,21 +1149,29 @@ class Interp:
 
     def _e_SetComp(self, n, env):
         out, unrolled = self._comp(n, env, lambda e: self.eval(n.elt, e))
-        return SetV(out) if unrolled else out[0]
+        return SetV(out) if unrolled or not out else out[0]
 
     def _e_DictComp(self, n, env):
         pairs, unrolled = self._comp(n, env, lambda e: (self.eval(n.key, e), self.eval(n.value, e)))
         d = DictV({})
         for k, v in pairs:
             d.items[k.s if isinstance(k, StrV) else nf.show(self.to_nf(k))] = v
-        if not unrolled:
+        if not unrolled and pairs:
             d.fallback.append(Num(nf.fn("dictcomp", self.to_nf(pairs[0][0]), self.to_nf(pairs[0][1]))))
         return d
 
     # attribute ------------------------------------------------------------------
+    def _mangled(self, attr, env):
+        """an attribute name written inside a class body is subject to private-name mangling"""
+        f = getattr(env, "func", None)
+        while f is not None and f.cls is None and f.parent is not None:
+            f = f.parent
+        cname = f.cls.name if f is not None and f.cls is not None else None
+        return mangle(attr, cname)
+
     def _e_Attribute(self, n, env):
         base = self.eval(n.value, env)
-        return self.getattr(base, n.attr, n)
+        return self.getattr(base, self._mangled(n.attr, env), n)
 
     def getattr(self, base, attr, node=None):
         if isinstance(base, ExtV):
@@ -1361,6 +1409,13 @@ class Interp:
             inst = env.lookup("self")
             owner = getattr(env, "owner", None) or (env.func.cls if env.func is not None else None)
             return SuperV(owner, inst)
+        if isinstance(n.func, ast.Name) and n.func.id == "super" and len(n.args) == 2:
+            # super(C, self): the method resolution continues after C (not after the class the call is written in)
+            c = self.eval(n.args[0], env)
+            inst = self.eval(n.args[1], env)
+            if not isinstance(c, ClassV):
+                raise AnalysisError(f"{self.cur_func()}:{n.lineno}: super() with a non-class first argument")
+            return SuperV(c.info, inst)
         callee = self.eval(n.func, env)
         args = self._elts(n.args, env)
         kwargs = {}
@@ -1391,6 +1446,9 @@ class Interp:
             exp = []
             for a in pos:
                 if isinstance(a, StarV):
+                    if isinstance(a.inner, TupV) and not a.inner.rowview:
+                        exp += list(a.inner.items)  # *t of a known tuple: exactly its items
+                        continue
                     base = self.to_nf(a.inner)
                     exp += [Num(nf.fn("item", base, nf.const(k))) for k in range(n_star)]
                 else:
@@ -1406,12 +1464,18 @@ class Interp:
                 raise AnalysisError(f"{fi.qualname}: too many positional arguments at line {getattr(node, 'lineno', 0)}")
         elif fi.vararg:
             bound[fi.vararg] = TupV([])
+        extra_kw = {}
         for k, v in kwargs.items():
             if k == "**":
                 continue
             if k in bound:
                 raise AnalysisError(f"{fi.qualname}: duplicate argument {k}")
+            if k not in params and k not in fi.kwonly and fi.kwarg:
+                extra_kw[k] = v  # collected by **kwargs
+                continue
             bound[k] = v
+        if fi.kwarg:
+            bound[fi.kwarg] = DictV(extra_kw)
         defaults = fi.defaults()
         denv = Env(None, fi.module, None)
         for p in params + fi.kwonly:
@@ -1596,6 +1660,9 @@ class Interp:
         return res
 
     def _call_method(self, recv, meth, args, kwargs, node):
+        if meth == "__setattr__" and isinstance(recv, SuperV) and len(args) == 2 and isinstance(args[0], StrV):
+            self.store_attribute(recv.inst, args[0].s, args[1], node, raw=True)
+            return NoneV()
         if isinstance(recv, (Num, Vec, Buf, TupV)):
             if meth in ("copy", "astype", "to_records", "to_numpy", "flatten", "ravel", "tolist", "reset_index"):
                 return recv.copy() if isinstance(recv, Vec) else recv
@@ -2003,6 +2070,21 @@ def _h_operator(it, args, kwargs, bound, node, qual):
         return it._binop(bin_ops[name](), args[0], args[1], node)
     if name == "neg" and len(args) == 1:
         return it._binop(ast.Sub(), const_num(0), args[0], node)
+    if name == "getitem" and len(args) == 2 and not kwargs:
+        return it._index(args[0], args[1], node)
+    if name in ("itemgetter", "attrgetter") and args and not kwargs:
+        # itemgetter('a', 'b') is  lambda o: (o['a'], o['b']);  attrgetter('x.y') is  lambda o: o.x.y
+        keys = []
+        for a in args:
+            if isinstance(a, StrV) and (name == "itemgetter" or all(part.isidentifier() for part in a.s.split("."))):
+                keys.append(repr(a.s) if name == "itemgetter" else a.s)
+            elif name == "itemgetter" and isinstance(a, Num) and nf.as_int(a.nf) is not None:
+                keys.append(str(nf.as_int(a.nf)))
+            else:
+                return None
+        parts = [f"_o[{k}]" if name == "itemgetter" else f"_o.{k}" for k in keys]
+        body = parts[0] if len(parts) == 1 else "(" + ", ".join(parts) + ")"
+        return LambdaV(ast.parse(f"lambda _o: {body}", mode="eval").body, None, None)
     return None
 
 
@@ -2013,17 +2095,21 @@ def _h_wraps(it, args, kwargs, bound, node, qual):
 
 
 def _h_partial(it, args, kwargs, bound, node, qual):
-    if args and isinstance(args[0], (FuncV, LambdaV, PartialV, ClassV)):
+    if args and isinstance(args[0], (FuncV, LambdaV, PartialV, ClassV, ExtV, BoundExt)):
         return PartialV(args[0], list(args[1:]), dict(kwargs))
+    return None
+
+
+def _h_mappingproxy(it, args, kwargs, bound, node, qual):
+    """types.MappingProxyType(d): a read-only view of d - the same mapping for every read"""
+    if len(args) == 1 and not kwargs and isinstance(args[0], DictV):
+        return args[0]
     return None
 
 
 def _h_setattr(it, args, kwargs, bound, node, qual):
     if len(args) == 3 and isinstance(args[1], StrV):
-        obj = args[0]
-        it.log("store_attr", node, base=obj, attr=args[1].s, value=args[2])
-        if isinstance(obj, (Inst, ExtObj)):
-            obj.attrs[args[1].s] = args[2]
+        it.store_attribute(args[0], args[1].s, args[2], node, raw=qual == "object.__setattr__")
         return NoneV()
     return None
 
@@ -2159,11 +2245,13 @@ _EXT_HANDLERS = {
     "getattr": _h_getattr,
     "functools.partial": _h_partial,
     "functools.wraps": _h_wraps,
-    **{"operator." + k: _h_operator for k in ("gt", "lt", "ge", "le", "eq", "ne", "is_", "is_not", "add", "sub", "mul", "truediv", "pow", "neg")},
+    **{"operator." + k: _h_operator for k in ("gt", "lt", "ge", "le", "eq", "ne", "is_", "is_not", "add", "sub", "mul", "truediv", "pow", "neg", "getitem", "itemgetter", "attrgetter")},
     "setattr": _h_setattr,
+    "object.__setattr__": _h_setattr,
     "delattr": _h_delattr,
     "isinstance": _h_isinstance,
     "dict": _h_dict,
+    "types.MappingProxyType": _h_mappingproxy,
 }
 for _q in IDENTITY_EXT:
     _EXT_HANDLERS[_q] = _h_identity
